@@ -1,7 +1,7 @@
 (* FloatAll.v — the hypotheses `dur_rt` / `float_rt` of the text-level theorems hold for every duration below 2^20 s and for every
    float the reader can produce: the writer's text is attribute-safe (digits, '.', '-') and reads back as the same value. *)
 From hls Require Import Base Float Lex Kinds Types Tags.
-From hls.Proofs Require Import FloatRound FloatNear FloatDigits DurationText FloatText FloatGuard AttrText TagText TagTextSegment MediaParsedWf.
+From hls.Proofs Require Import FloatRound FloatNear FloatDigits DurationText FloatText FloatGuard AttrText TagText TagTextSegment.
 From Coq Require Import Lia ZifyN ZifyBool.
 Local Open Scope Z_scope.
 
@@ -153,8 +153,9 @@ Qed.
 
 (* every float the reader accepts survives the writer and the reader *)
 Theorem parsed_float_roundtrip : forall s x, parse_float s = Ok x ->
-  parse_float (print_f32 x) = Ok x /\ float_rt x = true /\ value_domain (VFloat x) = true.
+  parse_float (print_f32 x) = Ok x /\ float_rt x = true
+  /\ starts_with s_0x (print_f32 x) = false /\ starts_with s_0X (print_f32 x) = false.
 Proof.
   intros s x H. pose proof (parse_float_valid s x H) as V. destruct (float_rt_valid x V) as [A [B C]].
-  split; [apply f32_text_roundtrip; exact V|]. split; [exact A|]. cbn [value_domain]. rewrite A, B, C. reflexivity.
+  split; [apply f32_text_roundtrip; exact V|]. auto.
 Qed.
